@@ -280,26 +280,26 @@ PROPS['C20'] = dict(
 
 
 # ---- Layer-I design models (spec/GoatImpl.tla) ---------------------------------
-ALL_FIXES = ['D1', 'D4', 'D5', 'D6', 'D7s', 'D7c', 'D22']
+ALL_FIXES = ['D1', 'D4', 'D5', 'D6', 'D7s', 'D7c', 'D22', 'D24']
 IMPL_INVS = ('UniqueIds EofOnlyOnOk NoCancelAfterSuccess ResetNotBeforeTrailer ResetNotBeforeTrailerPending '
-             'UnaryOkOnlyWithResp RegistriesEmptyWhenFinished ServeRetMeansHandlersDone')
+             'UnaryOkOnlyWithResp RegistriesEmptyWhenFinished ServeRetMeansHandlersDone CancelReportsCanceled')
 
 
 def impl(name, unaries=(), streams=(), workers=1, maxc=1, maxs=1, without=None, cancel=False, readfail=False,
-         stop=False, early=True, expect=None, tiers=None, tlc_workers=8, advc=0, advs=0, sendfail=False, hwaits=False):
+         stop=False, early=True, expect=None, tiers=None, tlc_workers=8, advc=0, advs=0, sendfail=False, hwaits=False, cap=0):
     """a configuration of GoatImpl.tla; `without` names a repaired defect to re-open (the model must then fail)"""
     fixes = [f for f in ALL_FIXES if f != without]
     sset = lambda xs: '{' + ', '.join('"%s"' % x for x in xs) + '}'
     b = lambda v: 'TRUE' if v else 'FALSE'
     cfg = ('SPECIFICATION Spec\nCONSTANTS\n  Unaries = %s\n  Streams = %s\n  NWorkers = %d\n  MaxC = %d\n  MaxS = %d\n'
            '  Fixes = %s\n  EnvCancel = %s\n  EnvReadFail = %s\n  EnvStop = %s\n  EnvSendFail = %s\n  EarlyReturn = %s\n  HandlerWaits = %s\n'
-           '  AdvClient = %d\n  AdvServer = %d\n  AdvIds = {1}\nINVARIANTS %s\n'
+           '  AdvClient = %d\n  AdvServer = %d\n  AdvIds = {1}\n  Cap = %d\nINVARIANTS %s\n'
            % (sset(unaries), sset(streams), workers, maxc, maxs, sset(fixes), b(cancel), b(readfail), b(stop), b(sendfail), b(early), b(hwaits),
-              advc, advs, IMPL_INVS))
+              advc, advs, cap, IMPL_INVS))
     d = dict(name='GoatImpl ' + name, spec='GoatImpl.tla', cfg=cfg, workers=tlc_workers, heap='12g', timeout=3000,
              constants='unary calls %s, streams %s, %d worker(s), <=%d client / <=%d handler messages per stream, '
-                       'environment: cancel=%s read-failure=%s stop=%s refused-send=%s early-return=%s handler-may-wait-for-cancel=%s adversarial envelopes to server=%d to client=%d; %s; deadlock checking on'
-                       % (sset(unaries), sset(streams), workers, maxc, maxs, b(cancel), b(readfail), b(stop), b(sendfail), b(early), b(hwaits), advc, advs,
+                       'environment: cancel=%s read-failure=%s stop=%s refused-send=%s early-return=%s handler-may-wait-for-cancel=%s adversarial envelopes to server=%d to client=%d, transport capacity %s; %s; deadlock checking on'
+                       % (sset(unaries), sset(streams), workers, maxc, maxs, b(cancel), b(readfail), b(stop), b(sendfail), b(early), b(hwaits), advc, advs, cap or 'unbounded',
                           'all repaired defects present' if not without else 'defect %s re-opened' % without))
     if expect:
         d['expect_violation'] = expect
@@ -330,6 +330,13 @@ B_D6 = impl('Bug_D6', unaries=['u1'], stop=True, early=False, without='D6', expe
 B_D7S = impl('Bug_D7s', streams=['s1'], maxc=2, maxs=0, without='D7s', expect='Deadlock reached', tlc_workers=2)
 B_D7C = impl('Bug_D7c', streams=['s1'], maxc=1, maxs=2, cancel=True, without='D7c', expect='Deadlock reached', tlc_workers=4)
 
+B_D24 = impl('Bug_D24', streams=['s1'], maxc=1, maxs=1, cancel=True, without='D24', expect='Invariant CancelReportsCanceled is violated', tlc_workers=4)
+# D25 is a known finding (not repaired): an eager caller (sends everything, then receives) against a handler that answers and
+# returns early, over a transport without slack; with fewer late messages, or a caller that may give up, nothing wedges
+K_D25 = impl('Known_D25 (eager caller, early-returning handler that has answered, transport capacity 1, 6 client messages)', streams=['s1'], maxc=6, maxs=1, cap=1, expect='Deadlock reached')
+M_S1CAP3 = impl('S1cap3 (the same with 3 client messages: the pipeline absorbs the resets)', streams=['s1'], maxc=3, maxs=1, cap=1)
+M_S1CAPC = impl('S1capc (transport capacity 1, two messages, the caller may cancel)', streams=['s1'], maxc=2, maxs=1, cap=1, cancel=True)
+
 M_ADVC3 = impl('AdvC3 (adversarial client: any 3 envelopes on one id, then it closes)', maxc=0, maxs=1, advc=3)
 M_ADVC4 = impl('AdvC4 (adversarial client: any 4 envelopes)', maxc=0, maxs=1, advc=4, tiers=['thorough'], tlc_workers=14)
 B_ADVC_D7S = impl('Bug_D7s under an adversarial client', maxc=0, maxs=0, advc=4, without='D7s', expect='Deadlock reached', tlc_workers=4)
@@ -338,8 +345,8 @@ M_ADVS3S = impl('AdvS3s (adversarial server: any 3 envelopes to a stream whose c
 B_ADVS_D7C = impl('Bug_D7c under an adversarial server', unaries=['u1'], maxc=0, maxs=0, advs=3, without='D7c', expect='Deadlock reached', tlc_workers=4)
 
 for _p, _ms in {'C12': [M_ADVC3, B_ADVC_D7S, M_ADVC4], 'C13': [M_ADVS3U, B_ADVS_D7C, M_ADVS3S], 'C01': [M_U2], 'C02': [M_S1, B_D1, M_S1M2], 'C03': [M_S1, B_D4], 'C05': [M_U2, M_S1], 'C06': [M_S1, B_D4],
-                'C07': [M_S1, B_D7C, M_HW0, K_D23, M_S1M2], 'C09': [M_U2RF, B_D5, M_S1RF], 'C10': [M_S1STOP, M_U2STOP, B_D6],
-                'C11': [M_S1, B_D7S, B_D7C, M_S1U1], 'C14': [M_S1, M_U2, M_S1SF, B_D22, M_S1SF2]}.items():
+                'C07': [M_S1, B_D7C, B_D24, M_HW0, K_D23, M_S1M2], 'C09': [M_U2RF, B_D5, M_S1RF], 'C10': [M_S1STOP, M_U2STOP, B_D6],
+                'C11': [M_S1, B_D7S, B_D7C, K_D25, M_S1CAP3, M_S1CAPC, M_S1U1], 'C14': [M_S1, M_U2, M_S1SF, B_D22, M_S1SF2]}.items():
     PROPS[_p]['models'] = list(PROPS[_p].get('models', [])) + _ms
 
 
